@@ -143,7 +143,8 @@ NewPartition ==
        img' = [img EXCEPT !.parts = Append(@, [vols |-> <<>>, sys |-> sys, spacers |-> {}, volgap |-> volgap])]
   /\ UNCHANGED <<done, goal>>
 
-VolNames == <<"VOL 1", "V2", "DRUMS 03">>
+\* plain names (what `ls` and `export` print unchanged) that between them use every letter and digit of the AKAI character set
+VolNames == <<"VOL 19 NET", "V2 JAZZ QX", "DRUMS 03">>
 NewVolume ==
   /\ ~done /\ CurP > 0 /\ Len(CurPart.vols) < goal.vols
   /\ Len(CurPart.vols) > 0 => Len(CurPart.vols[CurV].files) = goal.files
@@ -167,7 +168,7 @@ NewVolume ==
                         !.parts[CurP].spacers = IF keepfree /\ d[Len(d)] + 1 < NSect THEN @ \cup {d[Len(d)] + 1} ELSE @]
   /\ UNCHANGED <<done, goal>>
 
-FileNames == <<"S1", "KICK 2", "PAD#3", "X4">>
+FileNames == <<"S1 FGHW", "KICK 2", "PAD#3", "X4 BY 5678">>
 WordChoices(cap) == IF Mode = "exhaustive" THEN 0..cap
                     ELSE {cap, cap - 1, cap - (S \div 4), 10} \cap (0..cap)
 MarkerChoices(cnt) == IF Mode = "exhaustive" THEN {<<a, b>> : a \in 0..cnt, b \in 0..cnt} \cap {m \in (0..cnt) \X (0..cnt) : m[1] <= m[2]}
